@@ -95,9 +95,10 @@ const (
 	reqIdle
 	reqBlockForever
 	reqLockFail
+	reqUnlock
 )
 
-var kindName = [...]string{"yield", "spawn", "exit", "maindone", "send", "recv", "close", "opdone", "idle", "nilchan", "lock"}
+var kindName = [...]string{"yield", "spawn", "exit", "maindone", "send", "recv", "close", "opdone", "idle", "nilchan", "lock", "unlock"}
 
 type request struct {
 	kind  reqKind
@@ -174,6 +175,7 @@ type Sim struct {
 	pendingDone int
 	rvFrom      *task
 	avoid       *task
+	lockRetries int
 	afterDone   []*task
 	mainDone    bool
 	finished    bool
@@ -526,7 +528,10 @@ type tryLocker interface {
 	Lock()
 }
 
-// Lock replaces mu.Lock() for sync.Mutex and sync.RWMutex values.
+// Lock replaces mu.Lock() for sync.Mutex and sync.RWMutex values.  A task that does not get the
+// lock is disabled until some task unlocks that mutex (Unlock / RUnlock are rewritten too), so a
+// strategy that always prefers the waiting task cannot spin for ever on a lock whose holder is
+// parked.
 func Lock(mu tryLocker, site int) {
 	s := getCur()
 	if s == nil {
@@ -534,7 +539,7 @@ func Lock(mu tryLocker, site int) {
 		return
 	}
 	for !mu.TryLock() {
-		lockFail(s, site)
+		lockFail(s, lockKey(mu), site)
 	}
 }
 
@@ -551,17 +556,51 @@ func RLock(mu tryRLocker, site int) {
 		return
 	}
 	for !mu.TryRLock() {
-		lockFail(s, site)
+		lockFail(s, lockKey(mu), site)
 	}
 }
 
+type unlocker interface{ Unlock() }
+type runlocker interface{ RUnlock() }
+
+// Unlock replaces mu.Unlock(): the real unlock, then the scheduler wakes the tasks waiting for mu.
+func Unlock(mu unlocker, site int) {
+	mu.Unlock()
+	if s := getCur(); s != nil {
+		unlocked(s, lockKey(mu), site)
+	}
+}
+
+// RUnlock replaces mu.RUnlock().
+func RUnlock(mu runlocker, site int) {
+	mu.RUnlock()
+	if s := getCur(); s != nil {
+		unlocked(s, lockKey(mu), site)
+	}
+}
+
+// lockKey is the address of the mutex (the interface holds a pointer to it).
+func lockKey(mu interface{}) uintptr {
+	type iface struct{ typ, data unsafe.Pointer }
+	return uintptr((*iface)(unsafe.Pointer(&mu)).data)
+}
+
 //go:norace
-func lockFail(s *Sim, site int) {
+func lockFail(s *Sim, key uintptr, site int) {
 	if s.aborted {
 		panic(abortPanic{})
 	}
 	s.steps++
-	s.call(request{kind: reqLockFail, t: s.current, site: site})
+	s.call(request{kind: reqLockFail, t: s.current, ch: key, site: site})
+}
+
+//go:norace
+func unlocked(s *Sim, key uintptr, site int) {
+	if s.aborted {
+		return // unwinding: deferred unlocks must still run quietly
+	}
+	s.steps++
+	s.call(request{kind: reqUnlock, t: s.current, ch: key, site: site})
 }
 
 type doer interface{ Do(func()) }
@@ -608,6 +647,9 @@ func (s *Sim) block(t *task, kind reqKind, ch uintptr, site int) {
 func (s *Sim) handle(r request) {
 	s.res.Points++
 	t := r.t
+	if r.kind != reqLockFail {
+		s.lockRetries = 0
+	}
 	if r.site != 0 || r.kind == reqYield {
 		t.lastSite = r.site
 	}
@@ -627,9 +669,18 @@ func (s *Sim) handle(r request) {
 	case reqYield:
 		s.schedule(t, false)
 	case reqLockFail:
-		s.avoid = t
+		// disabled until the mutex is unlocked (or, as a safety net for an unlock the rewriter did not
+		// see, until nothing else can run: see schedule)
+		s.block(t, reqLockFail, r.ch, r.site)
 		s.schedule(nil, true)
-		s.avoid = nil
+	case reqUnlock:
+		for _, p := range s.tasks {
+			if p.state == stBlocked && p.blockKind == reqLockFail && p.blockCh == r.ch {
+				p.state = stRunnable
+				p.wakeMode = modeProceed
+			}
+		}
+		s.schedule(t, false)
 	case reqSpawn:
 		c := r.child
 		c.id = len(s.tasks)
@@ -813,6 +864,23 @@ func (s *Sim) schedule(from *task, forced bool) {
 		}
 	}
 	s.runnableBuf = run
+	if len(run) == 0 && s.lockRetries < 3 {
+		// lock waiters retry before quiescence is declared: their mutex may have been released by code
+		// the rewriter did not see
+		woke := false
+		for _, t := range s.tasks {
+			if t.state == stBlocked && t.blockKind == reqLockFail {
+				t.state = stRunnable
+				t.wakeMode = modeProceed
+				woke = true
+			}
+		}
+		if woke {
+			s.lockRetries++
+			s.schedule(from, forced)
+			return
+		}
+	}
 	if len(run) == 0 {
 		// quiescence
 		var idle *task
